@@ -508,6 +508,36 @@ def listen (cfg : TlsCfg) (s : Suite) : Nat → List (List Cert) → List Hello 
     let r := acceptHello cfg s (.hon i) sessions h
     r :: listen cfg s (i + 1) (sessions ++ r.toList) hs
 
+/-! ### overlapping handshakes with one listener
+
+`GetConfigForClient` runs once per ClientHello and returns a configuration of that connection's own;
+crypto/tls reads it again when the client's certificate arrives.  `shared = true` is the variant in which
+all connections of a listener share one configuration, so that the verifier stored last judges whatever
+certificate arrives next. -/
+
+/-- a ClientHello arrives (the connection gets the next number and the nonce `hon` of that number), or
+the certificates of connection `c` arrive -/
+inductive OvEv
+  | hello
+  | cert (c : Nat) (raw : List Cert)
+
+structure OvSt where
+  /-- connections opened so far: `0 … next-1` -/
+  next : Nat := 0
+  /-- established: connection and the certificates it was established on -/
+  accepted : List (Nat × List Cert) := []
+
+def ovStep (shared : Bool) (s : Suite) (st : OvSt) : OvEv → OvSt
+  | .hello => { st with next := st.next + 1 }
+  | .cert c raw =>
+    if c < st.next then
+      let judge := if shared then st.next - 1 else c
+      if (acceptHello perClientCfg s (.hon judge) [] (.full raw)).isSome then { st with accepted := (c, raw) :: st.accepted }
+      else st
+    else st
+
+def ovRun (shared : Bool) (s : Suite) (st : OvSt) (evs : List OvEv) : OvSt := evs.foldl (ovStep shared s) st
+
 /-! ### line-protocol front end -/
 namespace Drv
 
@@ -894,6 +924,28 @@ def step (s : State) (toks : List String) : State × String :=
       let key ← (← get m "key") |> NameBytes.Text.parseHex
       if key.length ≠ len then none
       pure ("name=" ++ NameBytes.Text.showHex (NameBytes.pubToCN (NameBytes.Text.anyGroup len) key))
+    (s, r.getD "bad-op")
+  | "interleave" :: rest =>
+    -- `interleave suite=… tlsv=… proof=<own|other|swap>`: two handshakes with the honest listener overlap (hello 1, hello 2,
+    -- certificate 1, certificate 2); the listener made one verifier per hello: connection 1 is judged against nonce `hon 1`,
+    -- connection 2 against `hon 2`, whatever the order of arrival.  own: each proof over its own nonce; other: both over
+    -- `hon 2`; swap: crossed.  Answer `c1=<ok|fail>:<key|-> c2=…`
+    let r : Option String := do
+      let m ← kv rest
+      if m.length ≠ 3 then none
+      let suite ← (← get m "suite") |> suiteOf
+      let tlsv ← get m "tlsv"
+      if tlsv ≠ "12" ∧ tlsv ≠ "13" then none
+      let (p1, p2) ← (match (← get m "proof") with
+        | "own" => some (1, 2) | "other" => some (2, 2) | "swap" => some (2, 1) | _ => none)
+      let one : Nat → Nat → String := fun i p =>
+        let raw := (certFor .new 2 12 (.hon p)).toList
+        match acceptHello perClientCfg suite (.hon i) [] (.full raw) with
+        | none => "fail:-"
+        | some raw' =>
+          "ok:" ++ (match acceptConn suite (.hon i) (fun _ => true) false raw' (.identity ⟨2, 0⟩) [7] with
+            | (idn, _) :: _ => labelOf idn.pub | [] => "-")
+      pure s!"c1={one 1 p1} c2={one 2 p2}"
     (s, r.getD "bad-op")
   | "resume" :: rest =>
     -- `resume suite=… tlsv=… rounds=<2..5> priv=<keep|drop>`: a client operated by a, with a session cache, connects
